@@ -246,7 +246,10 @@ class NetStation(_StationBase):
     def __init__(self, bus, name, via="listener", modifiable=True, fragile=False, send_fail=None):
         super().__init__(bus, name)
         self.network = None
-        self.via = via                  # 'listener' -> MessageListener.on_message_received ; 'notify' -> Network.notify
+        self.via = via                  # 'listener' -> MessageListener.on_message_received ; 'notify' -> Network.notify ;
+                                        # 'notify-reuse' -> Network.notify from one receive buffer that the "driver" overwrites
+                                        # as soon as notify() has returned (C-style back ends read every frame into the same memory)
+        self._rxbuf = bytearray()
         self.modifiable = modifiable    # flavour of cyclic tasks
         self.fragile = fragile          # models a driver that is not thread safe
         self.send_fail = send_fail      # callable(msg) -> exception or None
@@ -316,6 +319,16 @@ class NetStation(_StationBase):
                               dlc=frame.dlc if frame.rtr else None, check=False)
             for listener in net.listeners:
                 listener.on_message_received(msg)
+        elif self.via == "notify-reuse":
+            if frame.rtr:
+                return
+            buf = self._rxbuf
+            buf[:] = frame.data
+            try:
+                net.notify(frame.can_id, buf, frame.ts)
+            finally:
+                for i in range(len(buf)):       # the next frame is read into the same memory
+                    buf[i] ^= 0xA5
         else:
             if frame.rtr:
                 return
